@@ -31,7 +31,8 @@ DEC_CALLS = ("saturating_sub", "wrapping_sub", "checked_sub")
 DISARMED_AT_ZERO = {
     "kanata_state_machine::kanata::output_logic::zippychord::ZchDynamicState::zchd_tick/zchd_ticks_until_disable":
         "zero means that no chord deadline is pending (documented at the test); every arming site stores the configured deadline, "
-        "and the state is reset to zero on enable / soft reset",
+        "and the state is reset to zero on enable / soft reset. Consequence (recorded, C20 is not claimed): a *configured* deadline "
+        "of 0 (`on-first-press-chord-deadline 0` is accepted) arms nothing, i.e. means 'no deadline', not 'expires at once'",
 }
 CMP_OPS = ("Eq", "Ne", "Lt", "Le", "Gt", "Ge")
 
